@@ -6,13 +6,13 @@ from pathlib import Path
 
 ALL_TEMPLATES = ["p1_poisson_tri", "p2_poisson_tri", "mixed3_tri", "two_mesh_tri", "prism_facets", "multi_degree_tri",
                  "elasticity_tet", "interior_facet_tri", "quad_q2", "subdomains_tri", "math_tri", "two_const_tri", "hdiv_hcurl_tri",
-                 "manifold_tri", "p2_geometry_tri", "hex_q1", "tp_quad_q2", "tp_hex_q2", "expr_p2_tri", "expr_vec_tet",
+                 "manifold_tri", "p2_geometry_tri", "hex_q1", "mixed_dim_geo", "tp_quad_q2", "tp_hex_q2", "expr_p2_tri", "expr_vec_tet",
                  "g_p1_q2", "g_iso_q2", "g_p2_q2", "g_dg1_q2", "g_p1vec_q2", "g_p3_gll_q4", "g_p3_equi_q4",
                  "g_dp3_legendre_q4", "g_custom_w1", "g_custom_w2", "g_custom_w1_p2", "g_q1_quad_q2", "g_dq1_quad_q2",
                  "g_tpq1_quad_q2"]
 
 QUICK = ["p1_poisson_tri", "p2_poisson_tri", "mixed3_tri", "two_mesh_tri", "prism_facets", "multi_degree_tri",
-         "elasticity_tet", "interior_facet_tri", "tp_quad_q2", "two_const_tri", "expr_p2_tri"]
+         "elasticity_tet", "interior_facet_tri", "tp_quad_q2", "two_const_tri", "expr_p2_tri", "mixed_dim_geo"]
 
 # Templates that share every plausible memo key within a group: the same cell, quadrature degree and scheme, the same
 # form shape (mass + stiffness + boundary mass, so the same table shapes where the spaces have equal dimension) - they
